@@ -4,3 +4,4 @@ set -e
 cd "$(dirname "$0")"
 export CARGO_NET_OFFLINE=true
 ( cd harness && cargo build --offline )
+gcc -shared -fPIC -O1 -Wno-nonnull-compare -o shim/crashshim.so shim/crashshim.c -ldl -lpthread
